@@ -2,6 +2,7 @@
 From Coq Require Import List NArith Bool Arith Lia.
 From CC Require Import Policy PolicyProofs Structure Keys KeysMachine AssocLemmas CoverProofs1 CoverProofs2 CoverPolicy.
 From CC Require Crypto.
+From CC Require Import KInv1 E2E1 E2E2 E2E3 E2E4 E2E5 E2E6.
 Import ListNotations.
 
 (* Rights layer, converse direction: if no clause of the user policy covers the encryption clause, the right of the
@@ -47,3 +48,59 @@ Theorem C02_never_a_wrong_secret :
   Crypto.x_tag F D x' = Crypto.x_tag F D x -> x' = x /\ k = key.
 Proof. intros. eapply Crypto.tag_commits; eassumption. Qed.
 Print Assumptions C02_never_a_wrong_secret.
+
+(* ---- END TO END at the level of the key-management state machine (E2E1-6.v): for every reachable state in which the master
+   key has just been updated, a key generated for UP and an encapsulation made for EP under the public key of that update
+   (any quiet operations in between, either order): decapsulation returns the encapsulated secret if some clause of UP covers
+   some clause of EP at NAME level, and "not authorized" if none does. ---- *)
+Theorem C02_sound_reach :
+  forall (s0 : state) (ops1 ops2 : list op) (UP EP : str) (up ep : policy) (du : usk) (dx : xenc),
+       let s1 := fst (step fixed s0 OUpdate) in
+       let st := m_st (st_msk s1) in
+       let j := length (st_mpks s0) in
+       let sa := run_state fixed s1 ops1 in
+       let s2 := fst (step fixed sa (OKeygen UP)) in
+       let sb := run_state fixed s2 ops2 in
+       let s3 := fst (step fixed sb (OEncaps j EP)) in
+       let u := last (st_usks s2) du in
+       let x := last (st_encs s3) dx in
+       reach s0 ->
+       snd (step fixed s0 OUpdate) = ObOk ->
+       quiet_ops ops1 ->
+       snd (step fixed sa (OKeygen UP)) = ObOk ->
+       quiet_ops ops2 ->
+       snd (step fixed sb (OEncaps j EP)) = ObOk ->
+       parse true UP = Ok up ->
+       parse true EP = Ok ep ->
+       (forall U : list qattr, In U (to_dnf up) -> NoDup (map qdim U)) ->
+       (forall E : list qattr, In E (to_dnf ep) -> NoDup (map qdim E)) ->
+       (forall U E : list qattr, In U (to_dnf up) -> In E (to_dnf ep) -> ~ covers st U E) ->
+       Keys.decaps fixed u x = None.
+Proof. exact (@E2E2.C02_sound). Qed.
+Print Assumptions C02_sound_reach.
+
+Theorem C02_sound_any_order :
+  forall (s0 : state) (opsK opsE : list op) (UP EP : str) (up ep : policy) (u : usk) (x : xenc),
+       reach s0 ->
+       snd (step fixed s0 OUpdate) = ObOk ->
+       let s1 := fst (step fixed s0 OUpdate) in
+       let st := m_st (st_msk s1) in
+       let j := length (st_mpks s0) in
+       quiet_ops opsK ->
+       quiet_ops opsE ->
+       let sK := run_state fixed s1 opsK in
+       let sE := run_state fixed s1 opsE in
+       snd (step fixed sK (OKeygen UP)) = ObOk ->
+       st_usks (fst (step fixed sK (OKeygen UP))) = st_usks sK ++ [u] ->
+       snd (step fixed sE (OEncaps j EP)) = ObOk ->
+       st_encs (fst (step fixed sE (OEncaps j EP))) = st_encs sE ++ [x] ->
+       parse true UP = Ok up ->
+       parse true EP = Ok ep ->
+       (forall U : list qattr, In U (to_dnf up) -> NoDup (map qdim U)) ->
+       (forall E : list qattr, In E (to_dnf ep) -> NoDup (map qdim E)) ->
+       (forall U E : list qattr, In U (to_dnf up) -> In E (to_dnf ep) -> ~ covers st U E) ->
+       Keys.decaps fixed u x = None.
+Proof. exact (@E2E2.C02_sound_any_order). Qed.
+Print Assumptions C02_sound_any_order.
+
+
